@@ -190,6 +190,15 @@ theorem rloopWith_mono (run : St → Res) (hrun : Mono run) (runElse : Option (S
       have hl := rloopLoop_mono run hrun ls (loopItems vv sub) 0 s
       exact afterLoop_mono runElse helse s.c _ _ hl (hl.trans (CMono.of_eq rfl rfl rfl))
 
+
+theorem rloopQB_mono (run : St → Res) (hrun : Mono run) (runElse : Option (St → Res))
+    (helse : ∀ re, runElse = some re → Mono re) (ls : RLoopSpec) : Mono (rloopQB run runElse ls) := by
+  intro s
+  unfold rloopQB
+  cases cmpPath s.c.vars s.c.chQB ls.src with
+  | none => exact CMono.of_eq rfl rfl rfl
+  | some p => exact rloopWith_mono run hrun runElse helse { ls with src := p } s
+
 theorem loopNode_mono (loop : St → Res) (hl : Mono loop) : Mono (loopNode loop) := by
   intro s
   unfold loopNode
@@ -285,7 +294,7 @@ theorem interp_mono (reg : Registry) : ∀ f : Nat,
       | rloop ls child =>
         intro s; rw [writeNode]
         apply loopNode_mono
-        apply rloopWith_mono
+        apply rloopQB_mono
         · exact ihS _
         · intro re hre
           rw [Option.map_eq_some_iff] at hre
